@@ -13,13 +13,18 @@ All runs use the quick tier with VERIF_SEED=1 against a scratch worktree of /rep
 
 ## 1. Independently seeded changes (sub-agents that saw only the property text)
 
-Four rounds (76 changes). Round 1 (`seeded/C01` ... `seeded/C19`): one change per property, free choice of mechanism — most agents chose a
+Six rounds (113 changes). Round 1 (`seeded/C01` ... `seeded/C19`): one change per property, free choice of mechanism — most agents chose a
 cache or another form of shared state. Round 2 (`seeded/Cxx-2`): a second change per property with the instruction to use
 something else (arithmetic, indexing, ordering, sign handling, boundary conditions, data slips). Round 3 (`seeded/Cxx-3`): a
 third change per property, told which mechanisms had been used before and asked for something different, confined if possible
 to the interaction of two features. Round 4 (`seeded/Cxx-4`): a fourth change per property; each author was shown the
 summaries of the three earlier changes for that property and asked for a different mechanism in a different part of the input
-space, aimed at what a harness built from the property text would NOT naturally generate. Every change keeps the 152
+space, aimed at what a harness built from the property text would NOT naturally generate. Rounds 5 and 6 (`seeded/Cxx-5`,
+`seeded/Cxx-6`): the same with the summaries of all earlier changes for the property and a one-paragraph description of the
+kinds of input a harness would naturally generate (strata named in general terms: class-stratified stabilizers in several
+generator bases, formats, dtypes and layouts, named states, table representatives, routed / long circuits, ordered sublists,
+call sequences), so that the authors look elsewhere; round 6 additionally told them to stay strictly inside the documented
+input domain. (The C03 author of round 6 had not finished when this table was generated if `C03-6` is missing.) Every change keeps the 152
 stable tests of the repository green and comes with a demonstration program (`demo.py`: exit 1 with the change, exit 0
 without), both re-confirmed here by `tools_seeded.py`; `meta.json` holds the agent's description and the recorded runs,
 `replays/<check>.json` the minimal failing input the check produced (these are also the regression inputs under `regress/`).
@@ -39,7 +44,15 @@ reordering as presentation styles next to dense mixing (C06, C12 and all class-s
 valid stabilizers (C08), tomography of the library's own MUB basis states (C10), SWAPs and the BFS minimum in C05's compressed
 competitor circuits, boolean matrices (C15, C06), long circuits with SWAP-as-three-CX (C14), graphs built from arrays in
 several memory layouts (C19) and more dtypes / layouts / rank profiles for C18. Of the 19 round-4 changes, 10 were caught by
-the checks as they stood and 9 led to one of these extensions.
+the checks as they stood and 9 led to one of these extensions. Rounds 5 and 6 turned from *which state* to *how the same input
+is written* and to *ordinary small inputs that class-stratified sampling skips*: Bell pairs moved by SWAPs and input circuits that
+never touch some qubits (C02, C04, C07), spare qubits written as +-Z (C05), every generating set of a group and heaviest-element
+bases (C06), dense perturbations (C08), wide matrices (C18), f2 helpers on a live object's arrays and repeated queries of one
+class object (C13), all written forms of a grouping (C19), qubit lists as numpy integers / counted from the end / with structured
+orders (C11), counts dictionaries in any order, genuine qiskit `Result` objects and multi-experiment jobs (C10-C12), preparation
+circuits that end where the readout begins (C12), qiskit idioms for the same gates (C14), positional flags (C14), stabilizers of
+different sizes (C15), boolean arrays and identity operators (C16). Of the 19 round-5 changes 10 were caught as the checks stood,
+of the 18-19 round-6 changes 8; every miss led to one of the extensions above and is caught by the checks as committed.
 
 ## 2. Own mutation battery (`tools_mutants_batch.py`)
 
